@@ -48,7 +48,10 @@ def split_lines(text):
 #     (text, cls, block, toks)      toks = tuple of (start, end, role, flag)   flag: "S" | "F"
 # `cls`/`block`/`toks` always describe the line as it was in the undamaged base text.
 # =================================================================================================
-FIXED_GRAMMAR = {"mol-counts", "atom", "bond", "xyz-count", "xyz-atom"}
+FIXED_GRAMMAR = {"mol-counts", "atom", "bond", "xyz-count", "xyz-atom", "unity-head", "unity-attr"}
+UNITY_HEAD_ROLES = [("id", "S"), ("n-attr", "S")]
+UNITY_ATTR_ROLES = [("attr-name", "F"), ("attr-value", "S")]
+COUNT_ROLES_SET = {"n-atoms", "n-bonds", "n-subst", "n-feat", "n-sets", "count", "n-attr"}
 
 ATOM_ROLES = [("id", "S"), ("label", "F"), ("x", "S"), ("y", "S"), ("z", "S"), ("type", "S"), ("subst-id", "S"), ("subst-name", "F"), ("charge", "S"), ("status", "F")]
 BOND_ROLES = [("id", "S"), ("a1", "S"), ("a2", "S"), ("type", "S"), ("status", "F")]
@@ -116,6 +119,21 @@ def annotate_mol2(text):
                     if i >= n:
                         raise Illformed("base text: short BOND section")
                     doc.append((lines[i], "bond", block, _toks(lines[i], BOND_ROLES)))
+                section = None
+            elif name in ("UNITY_ATOM_ATTR", "UNITY_BOND_ATTR"):
+                # count-driven attribute lists: "<id> <n>" followed by n lines "<name> <value>"
+                doc.append((raw, "rti-UNITY", block, _toks(raw, [("rti", "S")])))
+                while i + 1 < n and not lines[i + 1].strip().startswith("@"):
+                    i += 1
+                    h = lines[i].split()
+                    if len(h) != 2 or not all(is_int(x) for x in h):
+                        raise Illformed("base text: attribute list header")
+                    doc.append((lines[i], "unity-head", block, _toks(lines[i], UNITY_HEAD_ROLES)))
+                    for _ in range(int(h[1])):
+                        i += 1
+                        if i >= n:
+                            raise Illformed("base text: short attribute list")
+                        doc.append((lines[i], "unity-attr", block, _toks(lines[i], UNITY_ATTR_ROLES)))
                 section = None
             else:
                 doc.append((raw, "rti-other", block, _toks(raw, [("rti", "S")])))
@@ -344,6 +362,30 @@ def classify(fmt, damaged, ref_orig):
     return "benign" if is_sublist(r, ref_orig) else "different"
 
 
+def classify_first_record(fmt, text, ref_orig):
+    """the same three classes for what a single-structure loader consumes: the first record only (an
+    xyz frame as long as its own count line says; a mol2 block up to the next MOLECULE record)"""
+    lines = text.split("\n")
+    try:
+        if fmt == "xyz":
+            t = lines[0].split() if lines else []
+            if len(t) != 1 or not is_int(t[0]) or int(t[0]) < 0:
+                return "damaged"
+            n = int(t[0]) + 2
+            if len(lines) < n:
+                return "damaged"
+            r = ref_xyz("\n".join(lines[:n]))
+        else:
+            starts = [i for i, l in enumerate(lines) if l.strip().startswith("@<TRIPOS>MOLECULE")]
+            end = starts[1] if len(starts) > 1 else len(lines)
+            r = ref_mol2("\n".join(lines[:end]))
+    except Illformed:
+        return "damaged"
+    if len(r) != 1:
+        return "damaged"
+    return "benign" if r[0] in ref_orig else "different"
+
+
 # ---- lenient header scan of a damaged text --------------------------------------------------------
 def scan_headers(fmt, text):
     """every (n_atoms, n_bonds|None) some block header of the text declares, in file order"""
@@ -382,7 +424,7 @@ def last_block_start(doc):
     return 0
 
 
-RETARGET_ROLES = {"id", "a1", "a2", "subst-id", "n-atoms", "n-bonds", "n-subst", "n-feat", "n-sets", "count"}
+RETARGET_ROLES = {"id", "a1", "a2", "subst-id", "n-atoms", "n-bonds", "n-subst", "n-feat", "n-sets", "count", "n-attr"}
 
 
 def retarget_values(doc, i, j):
@@ -394,11 +436,14 @@ def retarget_values(doc, i, j):
     same = [l for l in doc if l[2] == block and l[1] == cls]
     if cls == "bond" and role == "id":
         n = len(same)
-    elif cls in ("atom", "bond"):
+    elif cls in ("atom", "bond", "unity-head"):
         n = sum(1 for l in doc if l[2] == block and l[1] == "atom")
     else:
         n = cur
     vals = [0, 1, n, n + 1, -1]
+    if role in COUNT_ROLES_SET:
+        # a declared count with a sign: negative ones, and the same number with an explicit plus
+        vals += [-cur, f"+{cur}"]
     for k in (i - 1, i + 1):
         if 0 <= k < len(doc) and doc[k][1] == cls and doc[k][2] == block and j < len(doc[k][3]):
             x, y = doc[k][3][j][0], doc[k][3][j][1]
@@ -406,7 +451,7 @@ def retarget_values(doc, i, j):
                 vals.append(int(doc[k][0][x:y]))
     out = []
     for v in vals:
-        if v != cur and v not in out:
+        if v != cur and v not in out and str(v) != text[a:b]:
             out.append(v)
     return out
 
@@ -416,7 +461,7 @@ def retarget_values(doc, i, j):
 LITERALS = ("-", "+", "nan", "inf", "-inf", "1e", "1.2.3", "0x1A", "1.0D+00")
 
 
-LITERAL_ROLES = {"x", "y", "z", "charge", "count", "n-atoms", "n-bonds"}  # values, not identifiers
+LITERAL_ROLES = {"x", "y", "z", "charge", "count", "n-atoms", "n-bonds", "n-attr"}  # values, not identifiers
 
 
 def stride_lines(doc, stride):
@@ -491,7 +536,9 @@ def enumerate_faults(doc, fill="?!", infix="x", byte_cuts=True, num="7", only_li
                         yield {"kind": "replace-token", "line": i, "tok": j, "with": lit}
             if role == "rti":
                 yield {"kind": "rename-section", "line": i, "tok": j}
-            if role in ("n-atoms", "n-bonds", "n-subst", "n-feat", "n-sets", "count") and is_int(tok):
+            if role in COUNT_ROLES_SET and is_int(tok):
+                # the same value written with blanks around it (the same file) and with an explicit sign
+                yield {"kind": "pad-token", "line": i, "tok": j}
                 yield {"kind": "count+1", "line": i, "tok": j}
                 if int(tok) > 0:  # a negative count is not "off by one" in any useful sense
                     yield {"kind": "count-1", "line": i, "tok": j}
@@ -601,6 +648,8 @@ def apply_fault(doc, f):
             newtok = tok[:1] + f["fill"] + tok[1:]
     elif kind == "rename-section":
         newtok = tok.replace("@<TRIPOS>", "@<TRIPOS>X", 1) if "@<TRIPOS>" in tok else "X" + tok
+    elif kind == "pad-token":
+        newtok = "  " + tok + "  "
     elif kind == "replace-token":
         newtok = f["with"]
     elif kind == "retarget":
@@ -614,7 +663,7 @@ def apply_fault(doc, f):
     d = len(newtok) - len(tok)
     new = _replace(text, a, b, newtok)
     # a garbled token is no longer a structural one for a second fault
-    nflag = "F" if kind in ("garble-token", "rename-section", "replace-token") else flag
+    nflag = "F" if kind in ("garble-token", "rename-section", "replace-token", "pad-token") else flag
     toks2 = tuple(toks[:j]) + ((a, b + d, role, nflag),) + tuple((x + d, y + d, r, fl) for (x, y, r, fl) in toks[j + 1 :])
     return doc[:i] + [(new, cls, block, toks2)] + doc[i + 1 :]
 
